@@ -104,12 +104,26 @@ func runHandshakeWith(o hsOpts, suites []ipmi.CipherSuite, reply func(i int, p [
 				run.res = "panic"
 			}
 		}()
-		sess, err := t.NewV2Session(ctx, &bmc.V2SessionOpts{
-			SessionOpts:          bmc.SessionOpts{Username: string(o.user), Password: o.pass, MaxPrivilegeLevel: ipmi.PrivilegeLevel(o.priv)},
-			KG:                   o.kg,
-			PrivilegeLevelLookup: o.lookup,
-			CipherSuites:         suites,
-		})
+		var sess *bmc.V2Session
+		var err error
+		if len(suites) == 0 && len(o.kg) == 0 && !o.lookup {
+			// the version-agnostic entry point (nothing but the common options): must behave as NewV2Session with defaults
+			var s0 bmc.Session
+			s0, err = t.NewSession(ctx, &bmc.SessionOpts{Username: string(o.user), Password: o.pass, MaxPrivilegeLevel: ipmi.PrivilegeLevel(o.priv)})
+			if err == nil {
+				sess = s0.(*bmc.V2Session)
+				if s0.ID() != sess.LocalID || s0.Version() != "2.0" || t.Version() != "2.0" {
+					err = errors.New("Session.ID()/Version() disagree with the session")
+				}
+			}
+		} else {
+			sess, err = t.NewV2Session(ctx, &bmc.V2SessionOpts{
+				SessionOpts:          bmc.SessionOpts{Username: string(o.user), Password: o.pass, MaxPrivilegeLevel: ipmi.PrivilegeLevel(o.priv)},
+				KG:                   o.kg,
+				PrivilegeLevelLookup: o.lookup,
+				CipherSuites:         suites,
+			})
+		}
 		run.err = err
 		switch {
 		case err == nil:
